@@ -245,7 +245,14 @@ def run_case(spec):
         if as_baseline:
             I.reach("frame.handed_over_as_a_baseline_data_object")
         if fam == "billing":
-            data = (em.BillingBaselineData if as_baseline else em.BillingReportingData)(df, is_electricity_data=not gas)
+            try:
+                data = (em.BillingBaselineData if as_baseline else em.BillingReportingData)(df, is_electricity_data=not gas)
+            except Exception:
+                if not as_baseline:
+                    raise
+                # whether the baseline class may refuse this frame is C10's business; the frame is judged through the reporting class instead
+                I.reach("frame.baseline_class_refused_the_frame_not_judged_here")
+                data = em.BillingReportingData(df, is_electricity_data=not gas)
             try:
                 p = m.predict(data, ignore_disqualification=True)
             except Exception as e:
@@ -263,7 +270,15 @@ def run_case(spec):
                 keys.add("%s|%s|%s|%s" % (fam, spec.get("split"), "+".join(spec["pattern"]), agg))
         else:
             try:
-                data = (em.DailyBaselineData if as_baseline else em.DailyReportingData)(df, is_electricity_data=not gas)
+                try:
+                    data = (em.DailyBaselineData if as_baseline else em.DailyReportingData)(df, is_electricity_data=not gas)
+                except ValueError:
+                    raise
+                except Exception:
+                    if not as_baseline:
+                        raise
+                    I.reach("frame.baseline_class_refused_the_frame_not_judged_here")
+                    data = em.DailyReportingData(df, is_electricity_data=not gas)
             except ValueError:
                 # so few usage days that the data class takes the set for billing data and refuses it: no frame to judge (the data class's business)
                 I.reach("frame.set_rejected_by_the_data_class")
